@@ -18,6 +18,8 @@ NCOLS = ["id", "job_name", "job_id", "event_type", "event_id", "start_timestamp"
          "application_name", "parent_event_id"]
 ACOLS = ["parent_id", "child_id"]
 BIG = 2 ** 62
+FLOAT_RANGE_NOTE = ("the window computation used float arithmetic: analysed for tracked min/max timestamps in [2**60, 2**61] "
+                    "(years 2006..2043) and time_buffer <= 1000 minutes only")
 
 
 def cleaning_order() -> list[str]:
@@ -72,9 +74,11 @@ def capture(order: list[str], minT: Any, maxT: Any, buf: Any, base: list[Any]) -
 
     def go() -> Any:
         h = SQLDataHolder.__new__(SQLDataHolder)
-        h._min_timestamp = X.SymInt(minT)
-        h._max_timestamp = X.SymInt(maxT)
-        h.time_buffer = X.SymInt(buf)
+        # the intervals are used ONLY if the executed code converts these ints to floats (then the analysis is restricted
+        # to them, see FLOAT_RANGE_NOTE); pure integer code is analysed over the full range given by `base`
+        h._min_timestamp = X.SymInt(minT, 2**60, 2**61)
+        h._max_timestamp = X.SymInt(maxT, 2**60, 2**61)
+        h.time_buffer = X.SymInt(buf, 0, 1000)
         h.batch_size = 5
         h.session = Recorder()
         box["h"] = h
@@ -301,8 +305,12 @@ def _run(chk: core.Check, sizes: list[int]) -> None:
         chk.samples.append({"note": "otel_to_pv does not call all three cleaning steps", "order": order})
     minT, maxT, buf = z3.Ints("minT maxT buf")
     base = [minT >= 0, maxT >= 0, minT <= BIG, maxT <= 2**63 - 1, buf >= 0, buf <= 10**6]
+    X.FLOAT_EVENTS.clear()
     paths = capture(order, minT, maxT, buf, base)
     chk.extra["window_paths"] = len(paths)
+    if X.FLOAT_EVENTS:
+        chk.bounds["window"] = FLOAT_RANGE_NOTE
+        chk.extra["float_arithmetic_in_window_computation"] = sorted(set(X.FLOAT_EVENTS))
     for pi, (pc, stmts, exc) in enumerate(paths):
         if exc is not None:
             if isinstance(exc, ValueError) and "time buffer is too large" in str(exc):
